@@ -474,7 +474,18 @@ func (o *oracles) checkConverters(final bool) {
 	}
 }
 
-func (o *oracles) beforeRestart() {}
+func (o *oracles) beforeRestart() {
+	if o.on("C12") && !o.s.plan.NoOracle {
+		o.preRestart = o.crashModel()
+		o.importWasInFlight = false
+		for _, j := range o.s.jobs {
+			if (j.kind == simrt.KindImport || j.kind == simrt.KindMerge) && j.state == jPost {
+				// its output files are complete on disk but were never announced
+				o.importWasInFlight = true
+			}
+		}
+	}
+}
 
 func (o *oracles) afterRestart() {
 	o.held = map[int]*heldView{}
@@ -482,6 +493,19 @@ func (o *oracles) afterRestart() {
 		return
 	}
 	o.refreshState()
+	o.processed()
+	if o.s.crash != nil {
+		o.s.crash.models = append(o.s.crash.models, o.crashModel())
+	}
+	if o.on("C12") && o.preRestart != nil {
+		vr := o.s.probe(Op{K: "FreshView", On: true})
+		if vr.View != nil {
+			o.cleanRestartImportInFlight = o.importWasInFlight
+			o.compareRestart(o.state, vr.View, nil, o.preRestart, o.preRestart, "clean Close and restart", false)
+			o.cleanRestartImportInFlight = false
+		}
+		o.preRestart = nil
+	}
 }
 
 var _ = os.Remove
